@@ -694,7 +694,7 @@ def splice_loops(text, loops):
             if not w:
                 raise LiftError("do-block without while")
             consumed_while.add(cl + 1 + w.end() - 5)
-            found.append((m.end(), "do"))
+            found.append((m.end(), "do", q))
         else:
             if kw == "while" and q in consumed_while:
                 continue
@@ -704,7 +704,29 @@ def splice_loops(text, loops):
             if text[j] != "(":
                 continue
             cl = match_close(text, j)
-            found.append((cl + 1, kw))
+            found.append((cl + 1, kw, q))
+    if loops and "by_pattern" in loops:
+        # contracts attached by what the loop looks like (regex on the text starting at its keyword) instead of by ordinal: an edit
+        # under test may remove one of several loops; an optional pattern that matches no loop is skipped, a loop that matches no
+        # pattern is an extraction failure (an uncontracted loop cannot be verified unboundedly)
+        used = set()
+        inserts = []
+        for (pos, kw, q) in found:
+            hit = None
+            for k, (pat, contract, required) in enumerate(loops["by_pattern"]):
+                if k not in used and re.match(pat, text[q:q + 400], re.S):
+                    hit = k
+                    break
+            if hit is None:
+                raise LiftError("loop at offset %d (%s) matches no loop-contract pattern" % (q, kw))
+            used.add(hit)
+            inserts.append((pos, loops["by_pattern"][hit][1]))
+        for k, (pat, contract, required) in enumerate(loops["by_pattern"]):
+            if required and k not in used:
+                raise LiftError("required loop /%s/ not found" % pat)
+        for pos, contract in sorted(inserts, reverse=True):
+            text = text[:pos] + "\n" + contract.strip() + "\n" + text[pos:]
+        return text, len(found)
     expect = loops.get("count") if loops else None
     if expect is not None and expect != len(found):
         if loops.get("allow_missing") and len(found) == 0:
